@@ -56,7 +56,9 @@ MUT = {
     "header_alg": ["none", "none-strip", "ES256", "HS256", "RS384"],
 }
 PATHS = [("authz", "code id_token"), ("authz", "id_token"), ("authz", "id_token token"), ("authz", "code id_token token"), ("token", "code"),
-         ("msg-authz", "code id_token token"), ("msg-token", "code")]
+         ("msg-authz", "code id_token token"), ("msg-token", "code"),
+         # the token endpoint answers a refresh request with an ID token as well: the refresh service's own parse path
+         ("refresh", "code")]
 _rps = {}
 STATS = {"accepted": 0, "rejected": 0}
 
@@ -221,7 +223,7 @@ def impl(c):
         params["code"] = code
     if at:
         params.update({"access_token": at, "token_type": "Bearer"})
-    svc0 = rp.get_service("authorization" if path in ("authz", "msg-authz") else "accesstoken")
+    svc0 = rp.get_service("authorization" if path in ("authz", "msg-authz") else "refresh_token" if path == "refresh" else "accesstoken")
     obs = {"claims": claims, "sent_nonce": nonce, "nonces": [nonce, other_nonce], "supplied_sigalg": svc0.gather_verify_arguments().get("sigalg", "-"), "with_code": bool(code), "with_at": bool(at), "skew": expected_skew(cfg), "observed_skew": ctx.clock_skew, "alg": rpbase.unb64(tok.split(".")[0]).get("alg")}
     try:
         if path == "authz":
@@ -229,8 +231,10 @@ def impl(c):
             resp = svc.parse_response(urlencode(params), "urlencoded", state=state)
             svc.update_service_context(resp, key=state)
             ok = "__verified_id_token" in resp
-        elif path == "token":
-            svc = rp.get_service("accesstoken")
+        elif path in ("token", "refresh"):
+            svc = rp.get_service("accesstoken" if path == "token" else "refresh_token")
+            if path == "refresh":
+                params.setdefault("access_token", "REFRESHED-ACCESS-TOKEN"); params.setdefault("token_type", "Bearer")
             del params["state"]
             resp = svc.parse_response(json.dumps(params), "json", state=state)
             svc.update_service_context(resp, key=state)
@@ -256,7 +260,7 @@ def impl(c):
     except Exception as e:
         obs["r"] = "rejected"
         obs["how"] = type(e).__name__
-    st = ctx.cstate.get(state) if path in ("authz", "token") else {}
+    st = ctx.cstate.get(state) if path in ("authz", "token", "refresh") else {}
     if c.get("after_exchange"):
         # a verified token was there already (the genuine exchange): "stored" = the case's response replaced it
         now_ = st.get("__verified_id_token")
@@ -321,7 +325,7 @@ def model_lines(c, obs):
         signer = "outsider"
     if c["signer"] == "secret" and kid == "ok":
         kid = "absent"            # providers sign with the shared secret without naming a key
-    svc = path in ("authz", "token")
+    svc = path in ("authz", "token", "refresh")
     ep = "authz" if path in ("authz", "msg-authz") else "token"
     # which algorithm verify() is asked for: on the service path what gather_verify_arguments derives (model: effectiveSigalg),
     # on the message path what the harness itself passed
@@ -347,8 +351,9 @@ def model_lines(c, obs):
     nm = common.enc_list([n + US + str(i) for i, n in enumerate(obs["nonces"]) if n])
     allow_none = cfg["allow_none"]
     lines.append("\t".join([
-        "idt", "accept", "svc" if svc else "msg", ep, enc_str(ISS), enc_str(CID), sigalg, "1" if allow_none else "0", str(obs["skew"]), str(STORAGE), str(T0),
-        common.enc_list([ISS, ISSJ]), ("some:" + enc_str(obs["sent_nonce"])) if (obs["sent_nonce"] and not svc) else "none",
+        "idt", "accept", "svc" if (svc and path != "refresh") else "msg", ep, enc_str(ISS), enc_str(CID), sigalg, "1" if allow_none else "0", str(obs["skew"]), str(STORAGE), str(T0),
+        # refresh (OIDC Core 12.2): a nonce is compared only when the token carries one
+        common.enc_list([ISS, ISSJ]), ("some:" + enc_str(obs["sent_nonce"])) if (obs["sent_nonce"] and (not svc or (path == "refresh" and "nonce" in cl))) else "none",
         "1" if obs["with_code"] else "0", "1" if obs["with_at"] else "0",
         "1", obs["alg"] or "-", signer, "1" if intact else "0", kid,
         _f_str(cl, "iss"), _f_str(cl, "sub"), faud, _f_str(cl, "azp"), _f_int(cl, "exp"), _f_int(cl, "iat"), _f_str(cl, "nonce"),
@@ -360,11 +365,11 @@ def model_lines(c, obs):
 def compare(c, obs, outs):
     cfg = CFGS[c["cfg"]]
     d = []
-    if PATHS[c["path"]][0] in ("authz", "token") and outs[0] != obs["supplied_sigalg"]:
+    if PATHS[c["path"]][0] in ("authz", "token", "refresh") and outs[0] != obs["supplied_sigalg"]:
         d.append(f"sigalg supplied by gather_verify_arguments: model={outs[0]} impl={obs['supplied_sigalg']}")
     if outs[1] != obs["r"]:
         d.append(f"{PATHS[c['path']]} cfg={cfg} mut={c['mut']} signer={c['signer']}: model={outs[1]} impl={obs['r']} ({obs['how']})")
-    if (obs["r"] == "accepted") != obs["stored"] and PATHS[c["path"]][0] in ("authz", "token"):
+    if (obs["r"] == "accepted") != obs["stored"] and PATHS[c["path"]][0] in ("authz", "token", "refresh"):
         d.append(f"stored={obs['stored']} although {obs['r']}")
     return d
 
@@ -413,7 +418,9 @@ def invalid_reasons(c, obs):
     if not isinstance(cl.get("sub"), str):
         why.append("sub")
     if obs["sent_nonce"] and cl.get("nonce") != obs["sent_nonce"]:
-        why.append("nonce")
+        # a refreshed ID token need not repeat the nonce (OIDC Core 12.2); one it carries must be the one that was sent
+        if not (PATHS[c["path"]][0] == "refresh" and "nonce" not in cl):
+            why.append("nonce")
     if path in ("authz", "msg-authz") and alg != "none":
         from idpyoidc.message.oidc import left_hash
         if obs["with_code"] and cl.get("c_hash") != left_hash("CODE-0123456789", "HS" + alg[-3:]):
